@@ -204,3 +204,40 @@ func vhCompareB(_ SlabStorage, v Value, s Storable) (bool, error) {
 	}
 	return uint64(u) == k.val, nil
 }
+
+// vBlobKey: a map key that is too large to inline (stored as a reference to a
+// storable slab holding a CBOR byte string of n bytes).
+type vBlobKey struct {
+	n int
+	d [4]uint64
+}
+
+var _ Value = vBlobKey{}
+
+func (k vBlobKey) Storable(storage SlabStorage, addr Address, maxInline uint32) (Storable, error) {
+	return vBlob{n: k.n}.Storable(storage, addr, maxInline)
+}
+
+// vhCompareBK compares byte-level keys of either kind with their stored form.
+func vhCompareBK(storage SlabStorage, v Value, s Storable) (bool, error) {
+	if id, ok := s.(SlabIDStorable); ok {
+		sv, err := id.StoredValue(storage)
+		if err != nil {
+			return false, err
+		}
+		st, ok := sv.(Storable)
+		if !ok {
+			return false, fmt.Errorf("unexpected stored key %T", sv)
+		}
+		s = st
+	}
+	switch k := v.(type) {
+	case vBKey:
+		u, ok := s.(vU64)
+		return ok && uint64(u) == k.val, nil
+	case vBlobKey:
+		bl, ok := s.(vBlob)
+		return ok && bl.n == k.n, nil
+	}
+	return false, fmt.Errorf("unexpected key value %T", v)
+}
